@@ -354,7 +354,8 @@ Definition m_index (m : list comp) (ix : index) : option (list comp) * outcome :
   end.
 Definition dummy_g : gobj := GD (mkd [] (0%nat, []) []).
 Definition m_concat (m : list comp) (others : list (list comp)) : option (list comp) * outcome :=
-  if negb (forallb (fun o => Nat.eqb (length o) (length m)) others) then (None, ValueErr)
+  if negb (forallb same_nobs others) then (None, ValueErr)   (* building an operand already fails *)
+  else if negb (forallb (fun o => Nat.eqb (length o) (length m)) others) then (None, ValueErr)
   else match collect (map (fun k => g_concat (snd (nth k m (0%nat, dummy_g)))
                                      (map (fun o => snd (nth k o (0%nat, dummy_g))) others))
                           (seq 0 (length m))) with
